@@ -56,6 +56,7 @@ type connAdapter struct {
 
 func (a *connAdapter) Name() string                      { return a.name }
 func (a *connAdapter) SetReadDeadline(t time.Time) error { return a.rd.SetReadDeadline(t) }
+func (a *connAdapter) SetDeadline(t time.Time) error     { return a.rd.SetDeadline(t) }
 func (a *connAdapter) Read(p []byte) (int, error)        { return a.rd.Read(p) }
 func (a *connAdapter) Inject(p []byte) error             { return a.inject(p) }
 func (a *connAdapter) Close()                            { a.close() }
@@ -170,6 +171,7 @@ type udpAsConn struct {
 	c interface {
 		ReadFrom([]byte) (int, net.Addr, error)
 		SetReadDeadline(time.Time) error
+		SetDeadline(time.Time) error
 		Close() error
 	}
 }
@@ -179,7 +181,7 @@ func (u udpAsConn) Write([]byte) (int, error)          { return 0, errors.New("u
 func (u udpAsConn) Close() error                       { return u.c.Close() }
 func (u udpAsConn) LocalAddr() net.Addr                { return nil }
 func (u udpAsConn) RemoteAddr() net.Addr               { return nil }
-func (u udpAsConn) SetDeadline(t time.Time) error      { return u.c.SetReadDeadline(t) }
+func (u udpAsConn) SetDeadline(t time.Time) error      { return u.c.SetDeadline(t) }
 func (u udpAsConn) SetReadDeadline(t time.Time) error  { return u.c.SetReadDeadline(t) }
 func (u udpAsConn) SetWriteDeadline(t time.Time) error { return nil }
 
@@ -220,17 +222,22 @@ const (
 
 type step struct {
 	kind stepKind
-	dl   string        // set: "zero", "past", "near", "far"
+	dl   string        // set: "zero", "past", "near", "far", "again" (the very time value of the last non-zero set)
 	d    time.Duration // idle duration / near offset
+	both bool          // set through SetDeadline (read and write) where the connection type has it
 }
 
 func (s step) String() string {
 	switch s.kind {
 	case stSet:
-		if s.dl == "near" {
-			return fmt.Sprintf("set(+%v)", s.d)
+		via := ""
+		if s.both {
+			via = ",SetDeadline"
 		}
-		return "set(" + s.dl + ")"
+		if s.dl == "near" {
+			return fmt.Sprintf("set(+%v%s)", s.d, via)
+		}
+		return "set(" + s.dl + via + ")"
 	case stIdle:
 		return fmt.Sprintf("idle(%v)", s.d)
 	case stInject:
@@ -253,6 +260,13 @@ type readRec struct {
 	n      int
 	err    error
 	done   bool
+}
+
+func b2i(b bool) int {
+	if b {
+		return 1
+	}
+	return 0
 }
 
 func isTimeout(err error) bool {
@@ -320,11 +334,17 @@ func runHistory(a adapter, hist []step, labels func(string)) string {
 		defer mu.Unlock()
 		return cur != nil && !cur.done
 	}
+	var lastBySetter [2]time.Time // the last non-zero value given to SetReadDeadline / SetDeadline
 	for _, st := range hist {
 		switch st.kind {
 		case stSet:
 			var d time.Time
 			switch st.dl {
+			case "again":
+				d = lastBySetter[b2i(st.both)]
+				if d.IsZero() {
+					d = time.Now().Add(15 * time.Millisecond)
+				}
 			case "past":
 				d = time.Now().Add(-time.Second)
 			case "near":
@@ -332,9 +352,17 @@ func runHistory(a adapter, hist []step, labels func(string)) string {
 			case "far":
 				d = time.Now().Add(10 * time.Second)
 			}
+			if !d.IsZero() {
+				lastBySetter[b2i(st.both)] = d
+			}
 			t0 := time.Now()
-			if err := a.SetReadDeadline(d); err != nil {
-				return fmt.Sprintf("%s: SetReadDeadline returned %v", a.Name(), err)
+			setter := a.SetReadDeadline
+			if sd, ok := a.(interface{ SetDeadline(time.Time) error }); ok && st.both {
+				setter = sd.SetDeadline
+				labels("via-SetDeadline")
+			}
+			if err := setter(d); err != nil {
+				return fmt.Sprintf("%s: SetReadDeadline/SetDeadline returned %v", a.Name(), err)
 			}
 			mu.Lock()
 			sets = append(sets, setRec{t0, time.Now(), d})
@@ -477,7 +505,7 @@ func genHistory(t *rapid.T) ([]step, map[string]bool) {
 		switch k := rapid.IntRange(0, 99).Draw(t, "k"); {
 		case k < 30:
 			dl := rapid.SampledFrom([]string{"zero", "past", "near", "near", "near", "far"}).Draw(t, "dl")
-			st := step{kind: stSet, dl: dl}
+			st := step{kind: stSet, dl: dl, both: rapid.IntRange(0, 3).Draw(t, "both") == 0}
 			if dl == "near" {
 				st.d = time.Duration(rapid.IntRange(8, 30).Draw(t, "ms")) * time.Millisecond
 			}
@@ -504,6 +532,16 @@ func genHistory(t *rapid.T) ([]step, map[string]bool) {
 			if rapid.Bool().Draw(t, "wait") {
 				h = append(h, step{kind: stWait})
 			}
+		case k < 86:
+			// a deadline value applied, replaced through the other setter, and applied again
+			mid := rapid.SampledFrom([]string{"zero", "far", "past", "near"}).Draw(t, "mid")
+			firstBoth := rapid.Bool().Draw(t, "firstBoth")
+			h = append(h, step{kind: stSet, dl: "near", d: time.Duration(rapid.IntRange(10, 25).Draw(t, "ms")) * time.Millisecond, both: firstBoth},
+				step{kind: stSet, dl: mid, d: 40 * time.Millisecond, both: !firstBoth},
+				step{kind: stSet, dl: "again", both: firstBoth},
+				step{kind: stRead}, step{kind: stWait})
+			feat["reapplied-value"] = true
+			expired = true
 		case k < 92:
 			// expiry seen by two consecutive reads: short deadline, idle past it, read twice
 			h = append(h, step{kind: stSet, dl: "near", d: 8 * time.Millisecond}, step{kind: stIdle, d: 12 * time.Millisecond},
@@ -519,7 +557,7 @@ func genHistory(t *rapid.T) ([]step, map[string]bool) {
 	return h, feat
 }
 
-const ruleC10 = "rapid-drawn history of 3..12 steps run in parallel on six adapters (packetio.Buffer, dpipe end, udp listener connection on a real loopback socket, vnet UDPConn behind a router, a connected (dialed) vnet UDPConn that also receives 'stray' datagrams from a third host, test.Bridge endpoint with a ticking goroutine): SetReadDeadline(zero | 1 s in the past | +8..30 ms | +10 s), idle 0..40 ms, supply one message, start a read (at most one outstanding), optionally wait for it; real clock, executed under GODEBUG=asynctimerchan=1 and =0; oracle from monotonic timestamps: a timeout is legal only if a non-zero deadline in force during the call had passed when it returned; data is illegal once a read has timed out under the same unchanged deadline (or the deadline passed > 300 ms before the call); an outstanding read is released within 2 s of its unchanged deadline, or by data when none is pending; non-trivial = a deadline expired while no read was pending and was then extended or cleared before the next read, or two reads after one expiry; distinct by hash of the history"
+const ruleC10 = "rapid-drawn history of 3..12 steps run in parallel on six adapters (packetio.Buffer, dpipe end, udp listener connection on a real loopback socket, vnet UDPConn behind a router, a connected (dialed) vnet UDPConn that also receives 'stray' datagrams from a third host, test.Bridge endpoint with a ticking goroutine): SetReadDeadline or (a quarter of the calls, where the type has it) SetDeadline with zero | 1 s in the past | +8..30 ms | +10 s | the very value applied before (after the other setter replaced it), idle 0..40 ms, supply one message, start a read (at most one outstanding), optionally wait for it; real clock, executed under GODEBUG=asynctimerchan=1 and =0; oracle from monotonic timestamps: a timeout is legal only if a non-zero deadline in force during the call had passed when it returned; data is illegal once a read has timed out under the same unchanged deadline (or the deadline passed > 300 ms before the call); an outstanding read is released within 2 s of its unchanged deadline, or by data when none is pending; non-trivial = a deadline expired while no read was pending and was then extended or cleared before the next read, or two reads after one expiry; distinct by hash of the history"
 
 func TestC10Deadlines(t *testing.T) {
 	r := ev.New("C10", "deadlines/"+os.Getenv("GODEBUG"), ruleC10)
